@@ -231,6 +231,7 @@ Section OneProp.
         end
     | KSubList, Some n =>
         match v with
+        | VNone => Some (del_all n t)
         | VList vs => enc_kids p n vs (del_all n t)
         | _ => None
         end
@@ -330,10 +331,18 @@ Section OneProp.
     | _, _ => None
     end.
 
+  (* update_from_node: the list kinds keep their initial [] when get_py_value_from_node returns None *)
+  Definition update_value (p : prop) (v : val) : val :=
+    match p_kind p with
+    | KTextList | KQNameList => match v with VNone => VWords [] | _ => v end
+    | _ => v
+    end.
+  Definition read_member (p : prop) (t : tree) : option val := option_map (update_value p) (read_prop p t).
+
   Fixpoint read_all (ps : list prop) (t : tree) : option (list val) :=
     match ps with
     | [] => Some []
-    | p :: ps' => match read_prop p t, read_all ps' t with
+    | p :: ps' => match read_member p t, read_all ps' t with
                   | Some v, Some vs => Some (v :: vs)
                   | _, _ => None
                   end
